@@ -161,3 +161,75 @@ func TestC03PreOak(t *testing.T) {
 		d.Case(c, cs, err)
 	}
 }
+
+// TestC01NearTie: equal-length v2 branches on a calm network with a real
+// difficulty (about 4096): the fork blocks' timestamps differ, so the two
+// branches carry slightly different work - more than the other, but not
+// "sufficiently" more (the rule demands a margin of a fifth of the tip's
+// difficulty). The second branch to arrive must not move the tip, whichever
+// call delivers it; a branch one block longer must.
+func TestC01NearTie(t *testing.T) {
+	d := kit.NewDirect(t, "C01", "near-tie family: calm v2-only network with difficulty ~4096, trunk of 14 blocks, two branches of equal length 2..4 whose first blocks come 1..9 s after the trunk tip (work differs by less than the required margin), optionally a third block on the later branch; delivered in both orders through AddBlocks and through AddValidatedV2Blocks; same oracle as TestC01 (the tip moves only to a sufficiently heavier chain, and does move to one)")
+	defer d.Done()
+	ci := 0
+	for _, ln := range []int{2, 3, 4} {
+		for _, dts := range [][2]int{{1, 9}, {9, 1}, {1, 3}, {5, 2}} {
+			for _, validated := range []bool{false, true} {
+				for _, extra := range []int{0, 1} {
+					ci++
+					if !kit.MyShard(ci) || (!kit.Thorough() && ln == 4) {
+						continue
+					}
+					tc := kit.TreeCase{Net: kit.NetSpec{Maturity: 1, Allow: 1, ReqOff: 0, CutOff: 400, Hard: 3, Calm: true}}
+					for i := 0; i < 14; i++ {
+						tc.Blocks = append(tc.Blocks, kit.BlockSpec{Dt: 1, Miner: i % 4})
+					}
+					trunk := len(tc.Blocks)
+					for i := 0; i < ln; i++ {
+						bs := kit.BlockSpec{Dt: 1, Miner: 1}
+						if i == 0 {
+							bs.Dt = dts[0]
+						}
+						tc.Blocks = append(tc.Blocks, bs)
+					}
+					for i := 0; i < ln+extra; i++ {
+						bs := kit.BlockSpec{Dt: 1, Miner: 2}
+						if i == 0 {
+							bs.Dt, bs.Back = dts[1], ln
+						}
+						tc.Blocks = append(tc.Blocks, bs)
+					}
+					c := C01Case{Tree: tc}
+					c.Steps = append(c.Steps, kit.SubmitStep{Batch: seqInts(0, trunk)})
+					c.Steps = append(c.Steps, kit.SubmitStep{Batch: seqInts(trunk, trunk+ln), Validated: validated})
+					c.Steps = append(c.Steps, kit.SubmitStep{Batch: seqInts(trunk+ln, trunk+2*ln), Validated: validated})
+					if extra > 0 {
+						c.Steps = append(c.Steps, kit.SubmitStep{Batch: seqInts(trunk+2*ln, len(tc.Blocks)), Validated: validated})
+					}
+					c.Steps = append(c.Steps, kit.SubmitStep{Batch: seqInts(trunk, len(tc.Blocks))})
+					cs := &kit.CaseStats{}
+					err := runC01(c, cs)
+					// how close were the two branches?
+					tr := kit.BuildTree(tc)
+					a, b := tr.Nodes[trunk+ln-1], tr.Nodes[trunk+2*ln-1]
+					if a.Ledger != nil && b.Ledger != nil {
+						sa, sb := a.Ledger.State, b.Ledger.State
+						switch {
+						case sa.TotalWork.Cmp(sb.TotalWork) == 0:
+							cs.Class("near-tie:equal-work")
+						case !sa.SufficientlyHeavierThan(sb) && !sb.SufficientlyHeavierThan(sa):
+							cs.Class("near-tie:different-work-within-the-margin")
+							cs.NonTrivial()
+						default:
+							cs.Class("near-tie:one-branch-sufficiently-heavier")
+						}
+					}
+					if err != nil {
+						err = fmt.Errorf("near-tie family (branches of %d blocks, first blocks %d s / %d s after the trunk tip, validated=%v, extra=%d): %w", ln, dts[0], dts[1], validated, extra, err)
+					}
+					d.Case(c, cs, err)
+				}
+			}
+		}
+	}
+}
